@@ -274,6 +274,102 @@ def dename(tree: ast.AST, rel: str, src_digest: str | None = None) -> int:
     return total
 
 
+_PURE_CALLS = {"len", "ord", "bool", "int", "min", "max", "abs", "isinstance", "tuple", "frozenset", "bytes", "str", "chr", "divmod", "getattr"}
+
+
+_PURE_METHODS = {"issuperset", "issubset", "startswith", "endswith", "isdigit", "isalnum", "isalpha", "lower", "upper", "strip", "rstrip", "lstrip",
+                 "count", "find", "rfind", "decode", "encode", "hex", "bit_length", "replace", "split", "rsplit", "join", "partition"}
+
+
+def detemp(tree: ast.AST, rel: str) -> int:
+    """Undo "introduce explaining variable": a local that the reference function does not have, assigned exactly once from a
+    side-effect free expression over names that are themselves never re-bound in the function, is substituted by that
+    expression where it is read and its assignment dropped.  (Analysis only: the rules look at what is compared and what
+    is formatted, not at how often it is evaluated.)"""
+    import copy
+    ref = _ref().get(rel)
+    if not ref:
+        return 0
+    known_funcs = set(ref.get("#funcs", []))
+    total = 0
+    seen = {}
+    for q, fn in functions(tree):
+        seen[q] = seen.get(q, 0) + 1
+        key = q if seen[q] == 1 else f"{q}#{seen[q]}"
+        if q not in known_funcs:
+            continue
+        ref_names = {n for _, names in (ref.get(key) or []) for n in names}
+        loc = locals_of(fn)
+        new = loc - ref_names
+        if not new:
+            continue
+        captured = _captured(fn)
+        own = list(_own_nodes(fn))
+        stores: dict[str, int] = {}
+        for n in own:
+            if isinstance(n, ast.Name) and isinstance(n.ctx, (ast.Store, ast.Del)):
+                stores[n.id] = stores.get(n.id, 0) + 1
+        a = fn.args
+        params = {x.arg for x in a.posonlyargs + a.args + a.kwonlyargs}
+
+        def pure(e) -> bool:
+            for n in ast.walk(e):
+                if isinstance(n, ast.Call) and not (isinstance(n.func, ast.Name) and n.func.id in _PURE_CALLS) \
+                        and not (isinstance(n.func, ast.Attribute) and n.func.attr in _PURE_METHODS):
+                    return False
+                if isinstance(n, (ast.Lambda, ast.ListComp, ast.SetComp, ast.DictComp, ast.GeneratorExp, ast.Await, ast.Yield, ast.YieldFrom, ast.NamedExpr,
+                                  ast.List, ast.Dict, ast.Set, ast.JoinedStr)):
+                    return False
+                if isinstance(n, ast.Subscript) and not isinstance(n.slice, ast.Slice):
+                    return False          # an item lookup can raise / read a store: it is an event, not a value
+            return True
+        in_try = {id(st) for t_ in own if isinstance(t_, ast.Try) for st in t_.body}
+        table = {}
+        for t in sorted(new):
+            if stores.get(t) != 1 or t in captured:
+                continue
+            defs = [n for n in own if (isinstance(n, ast.Assign) and len(n.targets) == 1 and isinstance(n.targets[0], ast.Name) and n.targets[0].id == t)
+                    or (isinstance(n, ast.AnnAssign) and isinstance(n.target, ast.Name) and n.target.id == t and n.value is not None)]
+            if len(defs) != 1 or id(defs[0]) in in_try:
+                continue
+            e = defs[0].value
+            free = {x.id for x in ast.walk(e) if isinstance(x, ast.Name)}
+            if not pure(e) or t in free or any(stores.get(v, 0) > (0 if v in params else 1) for v in free):
+                continue
+            if any(v in new and v != t for v in free):
+                continue          # chains of new temporaries: keep it simple
+            table[t] = (defs[0], e)
+        if not table:
+            continue
+
+        class Sub(ast.NodeTransformer):
+            def visit_Name(self_, node):
+                if isinstance(node.ctx, ast.Load) and node.id in table:
+                    return ast.copy_location(copy.deepcopy(table[node.id][1]), node)
+                return node
+
+            def visit_FunctionDef(self_, node):
+                return node
+            visit_AsyncFunctionDef = visit_Lambda = visit_FunctionDef
+
+            def generic_visit(self_, node):
+                for field in ("body", "orelse", "finalbody"):
+                    lst = getattr(node, field, None)
+                    if isinstance(lst, list) and lst and isinstance(lst[0], ast.stmt):
+                        kept = [st for st in lst if not any(st is d for d, _ in table.values())]
+                        if not kept and field == "body":
+                            kept = [ast.copy_location(ast.Pass(), lst[0])]
+                        setattr(node, field, kept)
+                return super().generic_visit(node)
+        sub = Sub()
+        kept = [st for st in fn.body if not any(st is d for d, _ in table.values())] or [ast.copy_location(ast.Pass(), fn.body[0])]
+        fn.body = [sub.visit(st) for st in kept]
+        total += len(table)
+    if total:
+        ast.fix_missing_locations(tree)
+    return total
+
+
 def build_reference(root: str, rels: list[str]) -> dict:
     out = {}
     for rel in rels:
@@ -291,8 +387,133 @@ def build_reference(root: str, rels: list[str]) -> dict:
                 d[key] = [[t, n] for t, n in sig]
         d["#funcs"] = sorted({q for q, _ in functions(tree)})
         d["#shapes"] = {q: [t for t, _ in signature(fn)] for q, fn in functions(tree)}
+        d["#attrs"] = class_attrs(tree)
+        d["#consts"] = module_consts(tree)
         out[rel] = d
     return out
+
+
+def class_attrs(tree: ast.AST) -> dict:
+    """{class: {private attribute: [stores, loads, sorted methods it occurs in]}} for `self._x` attributes."""
+    out = {}
+    for cls in [c for c in ast.walk(tree) if isinstance(c, ast.ClassDef)]:
+        d = {}
+        for meth in [f for f in cls.body if isinstance(f, (ast.FunctionDef, ast.AsyncFunctionDef))]:
+            for x in ast.walk(meth):
+                if isinstance(x, ast.Attribute) and isinstance(x.value, ast.Name) and x.value.id == "self" and x.attr.startswith("_") and not x.attr.startswith("__"):
+                    e = d.setdefault(x.attr, [0, 0, set()])
+                    e[0 if isinstance(x.ctx, (ast.Store, ast.Del)) else 1] += 1
+                    e[2].add(meth.name)
+        if d:
+            out[cls.name] = {k: [v[0], v[1], sorted(v[2])] for k, v in d.items()}
+    return out
+
+
+def reattr(tree: ast.AST, rel: str) -> int:
+    """Undo renames of private instance attributes: an attribute `self._new` that the reference class does not have, while an
+    attribute of the reference class has gone that was stored and loaded equally often in the same methods, gets the
+    reference name back (every `._new` in the module)."""
+    ref = (_ref().get(rel) or {}).get("#attrs")
+    if not ref:
+        return 0
+    cur = class_attrs(tree)
+    n = 0
+    used = {x.attr for x in ast.walk(tree) if isinstance(x, ast.Attribute)} | {x.id for x in ast.walk(tree) if isinstance(x, ast.Name)}
+    for cname, attrs in cur.items():
+        rattrs = ref.get(cname)
+        if not rattrs:
+            continue
+        new = [a for a in attrs if a not in rattrs]
+        gone = [a for a in rattrs if a not in attrs]
+        if not new or not gone:
+            continue
+        for a in new:
+            cands = [g for g in gone if rattrs[g][2] == attrs[a][2] and abs(rattrs[g][0] - attrs[a][0]) <= 1 and abs(rattrs[g][1] - attrs[a][1]) <= 2]
+            if len(cands) != 1:
+                continue
+            g = cands[0]
+            if sum(1 for b in new if rattrs[g][2] == attrs[b][2] and abs(rattrs[g][0] - attrs[b][0]) <= 1 and abs(rattrs[g][1] - attrs[b][1]) <= 2) != 1:
+                continue
+            for x in ast.walk(tree):
+                if isinstance(x, ast.Attribute) and x.attr == a:
+                    x.attr = g
+            n += 1
+    return n
+
+
+def module_consts(tree: ast.AST) -> list[str]:
+    out = []
+    for s_ in getattr(tree, "body", []):
+        if isinstance(s_, ast.Assign):
+            out += [t.id for t in s_.targets if isinstance(t, ast.Name)]
+        elif isinstance(s_, ast.AnnAssign) and isinstance(s_.target, ast.Name):
+            out.append(s_.target.id)
+    return sorted(set(out))
+
+
+def reconst(tree: ast.AST, rel: str) -> int:
+    """Undo "hoist a literal into a module-level constant": a module-level name that the reference does not have, assigned
+    exactly once, from a side-effect free expression (literals, attribute chains such as os.O_EXCL, operators, getattr /
+    tuple / frozenset / len of those), is substituted by that expression wherever it is read (functions that bind the
+    same name locally are left alone).  struct.Struct constants are left to sa/canon.py."""
+    import copy
+    ref = (_ref().get(rel) or {}).get("#consts")
+    if ref is None:
+        return 0
+    known = set(ref)
+    assigned: dict[str, list] = {}
+    for s_ in getattr(tree, "body", []):
+        if isinstance(s_, ast.Assign) and len(s_.targets) == 1 and isinstance(s_.targets[0], ast.Name):
+            assigned.setdefault(s_.targets[0].id, []).append(s_.value)
+        elif isinstance(s_, ast.AnnAssign) and isinstance(s_.target, ast.Name) and s_.value is not None:
+            assigned.setdefault(s_.target.id, []).append(s_.value)
+
+    def pure(e) -> bool:
+        for n in ast.walk(e):
+            if isinstance(n, ast.Call):
+                f = n.func
+                if not (isinstance(f, ast.Name) and f.id in ("getattr", "tuple", "frozenset", "len", "ord", "bytes", "set")):
+                    return False
+            elif isinstance(n, (ast.Lambda, ast.ListComp, ast.SetComp, ast.DictComp, ast.GeneratorExp, ast.Await, ast.Yield, ast.YieldFrom, ast.NamedExpr,
+                                ast.List, ast.Dict)):
+                return False
+        return True
+    stores_elsewhere = {n.id for f in ast.walk(tree) if isinstance(f, (ast.FunctionDef, ast.AsyncFunctionDef)) for n in ast.walk(f)
+                        if isinstance(n, ast.Global) for n in [ast.Name(id=x) for x in n.names]}
+    table = {k: v[0] for k, v in assigned.items() if k not in known and len(v) == 1 and pure(v[0]) and k not in stores_elsewhere and k != "__all__"}
+    # constants defined from other new constants: resolve in definition order
+    if not table:
+        return 0
+
+    class Sub(ast.NodeTransformer):
+        def __init__(self):
+            self.shadow: list[set[str]] = []
+            self.n = 0
+
+        def _func(self, node):
+            bound = {a.arg for a in node.args.posonlyargs + node.args.args + node.args.kwonlyargs}
+            bound |= {n.id for n in ast.walk(node) if isinstance(n, ast.Name) and isinstance(n.ctx, (ast.Store, ast.Del))}
+            self.shadow.append(bound)
+            self.generic_visit(node)
+            self.shadow.pop()
+            return node
+        visit_FunctionDef = visit_AsyncFunctionDef = _func
+
+        def visit_Name(self, node):
+            if isinstance(node.ctx, ast.Load) and node.id in table and not any(node.id in sh for sh in self.shadow):
+                self.n += 1
+                return ast.copy_location(self.visit(copy.deepcopy(table[node.id])), node)
+            return node
+    sub = Sub()
+    new_body = []
+    for s_ in tree.body:
+        tgt = s_.targets[0] if isinstance(s_, ast.Assign) and len(s_.targets) == 1 else (s_.target if isinstance(s_, ast.AnnAssign) else None)
+        if isinstance(tgt, ast.Name) and tgt.id in table:
+            continue                      # the hoisted definition itself goes away
+        new_body.append(sub.visit(s_))
+    tree.body = new_body
+    ast.fix_missing_locations(tree)
+    return sub.n
 
 
 def refunc(tree: ast.AST, rel: str) -> int:
